@@ -81,7 +81,7 @@ func EditKey(s string) string {
 // EditValues are keyword-like / quoting-sensitive values for Set.
 var EditValues = []string{"null", "NULL", "Null", "true", "True", "FALSE", "suspend", "Suspend", "unsuspend", "label", "Label", "shape", "Shape",
 	"style", "near", "_", "*", "**", "a.b", "a -> b", "x: y", "{", "}", "[", "]", "#hash", "semi;colon", "|pipe|", "|md x|", "'q'", "\"dq\"", "`bt`",
-	"${x}", "$", "\\", "\\n", "a\nb", " lead", "trail ", "  ", "", "1", "-1", "0.5", "007", "1e3", "@x", "...@x", "&x", "!&x", "é", "中文", "😀", "<b>", "&amp;", "\t", "a\\ b", "-", "--", "->", "x -"}
+	"${x}", "sum: ${total}\nsee template", "a ${b} c\nd", "$", "\\", "\\n", "a\nb", " lead", "trail ", "  ", "", "1", "-1", "0.5", "007", "1e3", "@x", "...@x", "&x", "!&x", "é", "中文", "😀", "<b>", "&amp;", "\t", "a\\ b", "-", "--", "->", "x -"}
 
 type edGen struct {
 	r      *R
